@@ -13,6 +13,8 @@ using namespace std;
 
 void KeyvalTools::singleKeyval(const std::string& desc, std::string& key, std::string& val, const std::string& split)
 {
+  if (split.empty())
+    throw KeyvalException("Bad syntax! The key/value separator is empty.");
   string::size_type i = desc.find(split);
   if (i == string::npos)
     throw KeyvalException("Bad syntax! keyval should be of the form 'key" + split + "=value', found '" + desc + "'.");
